@@ -27,6 +27,8 @@ func runC11(r *engine.Run) {
 	r.Rule("REF-shared", "storage is addressed, and garbage is collected, by node hash; that is sound only if equal content at two positions cannot be one stored node: some node field set by insert must derive from the walk's prefix (a position component in the hashed state). Otherwise deleting or replacing content at one position collects the node another position still uses")
 	r.Rule("ERR-guard", "see C17, applied to the weighted trie: a failed Save, storage read or batch operation is never turned into success")
 	r.Rule("ERR-dropped", "see C17: the error of every trie / storage operation of the weighted trie is looked at (deliberate drops in the rollback paths are listed with reasons)")
+	r.Rule("AGREE-persist", "see C10: every field Serialize writes is read back by DeserializeNode (a reopened trie is rebuilt from exactly what was saved)")
+	r.Rule("DOM-memo", "see C09: CalcHash stores what it recomputes (Save writes the node under Hash())")
 	r.NotDec = append(r.NotDec, "that a reopened trie is observationally identical (value-level)", "atomicity of the storage engine's batches (the atomic unit by the property's quantifier)")
 	domSave(r)
 	domCreated(r, "DOM-created")
@@ -37,6 +39,8 @@ func runC11(r *engine.Run) {
 	whoDirtyClear(r)
 	domUnchanged(r, "DOM-unchanged")
 	refShared(r, "REF-shared")
+	agreePersist(r, "AGREE-persist")
+	domMemo(r, "DOM-memo")
 	errGuard(r, "ERR-guard", "ERR-dropped", funcsOfPkg(r, pkgWMPT), 20)
 }
 
